@@ -76,6 +76,7 @@ type Loc struct {
 	Elems  []Value     // compact array of leaf elements (nil entry = zero value)
 	ElemT  types.Type  // element type for arrays
 	Native interface{} // attached native model (file, hash, ...)
+	Lazy   bool        // array backing that grows on demand (symbolic-length slices)
 	ID     int
 	Parent *Loc // for array element / field locs (used by SliceToArrayPointer only)
 }
@@ -92,6 +93,9 @@ type SliceV struct {
 	Len int
 	Cap int
 	Nil bool
+	// SLen != nil: the length (and capacity) is this symbolic term; Len/Cap
+	// are meaningless and the backing array is lazy (grows on demand).
+	SLen *smt.Term
 }
 
 type StructV []Value
@@ -438,14 +442,85 @@ func (in *Interp) storeLoc(l *Loc, v Value) {
 // ---------------------------------------------------------------------
 // slices
 
-func (s SliceV) elemPtr(i int) Value { return s.Arr.elemPtr(s.Off + i) }
+// ensureArr grows a lazy backing array to at least n elements.
+func (in *Interp) ensureArr(l *Loc, n int) {
+	if !l.Lazy || n <= l.arrayLen() {
+		return
+	}
+	if n > in.eng.MaxArray {
+		panic(unwindFail{fmt.Sprintf("lazy array grows to %d elements (engine limit %d) at %s", n, in.eng.MaxArray, in.site())})
+	}
+	if isLeafType(l.ElemT) {
+		for len(l.Elems) < n {
+			l.Elems = append(l.Elems, nil)
+		}
+	} else {
+		for len(l.Kids) < n {
+			k := in.newLoc(l.ElemT)
+			k.Parent = l
+			l.Kids = append(l.Kids, k)
+		}
+	}
+}
+
+func (in *Interp) newLazyArray(elem types.Type) *Loc {
+	in.nextID++
+	l := &Loc{T: types.NewArray(elem, 0), ID: in.nextID, ElemT: elem, Lazy: true}
+	if isLeafType(elem) {
+		l.Elems = []Value{}
+	} else {
+		l.Kids = []*Loc{}
+	}
+	return l
+}
+
+func (in *Interp) sliceElemPtr(s SliceV, i int) Value {
+	in.ensureArr(s.Arr, s.Off+i+1)
+	return s.Arr.elemPtr(s.Off + i)
+}
 
 func (in *Interp) sliceGet(s SliceV, i int) Value {
-	return in.load(s.elemPtr(i))
+	return in.load(in.sliceElemPtr(s, i))
 }
 
 func (in *Interp) sliceSet(s SliceV, i int, v Value) {
-	in.store(s.elemPtr(i), v)
+	in.store(in.sliceElemPtr(s, i), v)
+}
+
+// lenTerm returns the length of s as a term.
+func (in *Interp) lenTerm(s SliceV) *smt.Term {
+	if s.SLen != nil {
+		return s.SLen
+	}
+	return in.ctx.BV(uint64(s.Len), 64)
+}
+
+// conc turns a symbolic-length slice into a concrete-length one by forking
+// over the feasible lengths (up to the harness bound).
+func (in *Interp) conc(s SliceV) SliceV {
+	if s.SLen == nil {
+		return s
+	}
+	n := in.Concretize(s.SLen, in.maxLen, "slice length")
+	in.ensureArr(s.Arr, s.Off+n)
+	cp := n
+	if s.Cap > n {
+		cp = s.Cap
+	}
+	return SliceV{Arr: s.Arr, Off: s.Off, Len: n, Cap: cp}
+}
+
+// concValue concretizes slices at the top level of a value (also inside an interface).
+func (in *Interp) concValue(v Value) Value {
+	switch x := v.(type) {
+	case SliceV:
+		return in.conc(x)
+	case IfaceV:
+		if sv, ok := x.V.(SliceV); ok && sv.SLen != nil {
+			return IfaceV{T: x.T, V: in.conc(sv)}
+		}
+	}
+	return v
 }
 
 func (in *Interp) makeSlice(elem types.Type, n, c int) SliceV {
@@ -526,6 +601,9 @@ func (in *Interp) show(v Value) string {
 		}
 		return fmt.Sprintf("&loc%d(%v)", v.ID, v.T)
 	case SliceV:
+		if v.SLen != nil {
+			return "slice[sym]"
+		}
 		return fmt.Sprintf("slice[%d:%d]", v.Len, v.Cap)
 	case StructV:
 		parts := make([]string, len(v))
